@@ -188,6 +188,10 @@ func plAlphabet() ([]plDef, map[string]*plDef) {
 		v("avc_sh_junksps", plCat(avc[:13], plFill(ls, 0x80), avc[13+ls:]))
 		v("avc_sh_sps1", plCat(avc[:11], plU16(1), []byte{0x67}, []byte{1}, plU16(len(plPps)), plPps))
 		v("avc_sh_sps4", plCat(avc[:11], plU16(4), []byte{0x67, 0x64, 0x00, 0x20}, []byte{1}, plU16(len(plPps)), plPps))
+		// a count field inside the SPS bit stream at its extreme: pic_order_cnt_type 1 with
+		// num_ref_frames_in_pic_order_cnt_cycle = 2^32-2 (ue(v): 31 zeros, 32 ones) and nothing behind it
+		pocMax := []byte{0x67, 0x42, 0x00, 0x1e, 0xd7, 0x00, 0x00, 0x00, 0x01, 0xff, 0xff, 0xff, 0xfe}
+		v("avc_sh_sps_poc1max", plCat(avc[:11], plU16(len(pocMax)), pocMax, []byte{1}, plU16(len(plPps)), plPps))
 		// ---- HEVC sequence header (legacy and enhanced)
 		for _, k := range []struct {
 			pre string
